@@ -6,7 +6,7 @@ import re
 VERIF = os.path.dirname(os.path.dirname(os.path.abspath(__file__)))
 
 
-ROUNDS = """Eight rounds of independent seeding (sub-agents in scratch worktrees of /repo; they see the twenty property texts, the list of
+ROUNDS = """Nine rounds of independent seeding (sub-agents in scratch worktrees of /repo; they see the twenty property texts, the list of
 earlier changes so that nothing is repeated, and nothing of /verif): `Cnn-A/B` and `Cnn-A2/B2` one agent per property (rounds 1, 2);
 `K01..K12` one agent per component (round 3); `S01..S10` per component with the instruction to damage what the recent `fix:` commits
 established without reverting them (round 4); `R01..R12` per property again, for the properties with the fewest changes so far
@@ -47,6 +47,12 @@ skipped-prefix configurations whose string order and directory order differ (`/a
 kube-apiservers ask for over a directory slightly larger (limit 10000 / 10020; C03); exactly as many streamed batches as the stream's
 buffer holds with a consumer that starts late (the terminator must still come; C13); a take-over by a node that had served reads as
 a follower (`campaign followed=`; C15). All 12 are caught now.
+Round 9 (`P01..P06`: defaults and zero values, copy versus alias, retry loops and bounded attempts, the order of two statements in
+places no earlier round had reordered, the etcd watch server and the proxy streams, cross-API consistency; 3 of 12 missed at first,
+all three in the etcd watch server with SEVERAL watches on one stream) -> racetest `TestWatchIdsAndCancelsOnOneStream` on a real gRPC
+stream (a new watch never gets the id of a live one, events arrive under the id of their own watch, one `canceled` per watch when the
+server's refusal of a range stream overlaps the client's cancel) and the regenerated fact that `watcher.Cancel` forgets a watch in
+the critical section in which it found it registered (KB.OrderC05, audited by C05, C13 and C16). All 12 are caught now.
 The table is regenerated from the `result.json` files.
 
 """
